@@ -280,6 +280,9 @@ class Unit:
                     for l in spec.get("loop", []):
                         if "ordinal" in l and l["ordinal"] in lmap:
                             l["ordinal"] = lmap[l["ordinal"]]
+                    # loops the recorded tree did not have (W7: they get the function's own result-free postconditions as invariants)
+                    if kind == "fn":
+                        spec["_new_loops"] = [j for j in range(len(cur["loops"])) if j not in set(lmap.values())]
 
     def static_list(self, ix, arg):
         parts = arg.split()
